@@ -254,18 +254,41 @@ def _f8(clause: str, case: Any) -> bool:
 
 
 def _f9(clause: str, case: Any) -> bool:
-    """ filter_results: an overlapping group of >= 4 hits that is not a clique """
-    return (_base(clause) in ("filter/same-for-every-input-order (filter_results)",
-                              "filter/same-for-every-input-order (both filters)",
-                              "filter/best-of-each-overlap-group-survives")
-            and _is_filter(case) and O.f_long_chain(case["hits"]))
-
-
-def _f10(clause: str, case: Any) -> bool:
     """ filter_result_multiple: two hits of one profile in one gene share the best score """
     return (_base(clause) in ("filter/same-for-every-input-order (filter_result_multiple)",
                               "filter/same-for-every-input-order (both filters)")
             and _is_filter(case) and O.f_tied_best_in_profile(case["hits"]))
+
+
+def _is_hmmer(case: Any) -> bool:
+    return isinstance(case, dict) and case.get("fn") == "hmmer"
+
+
+def _f10(clause: str, case: Any) -> bool:
+    """ hmmer.remove_overlapping: a hit with the smallest start is shorter than overlap_limit and the
+        only defect of the result is that hits are returned twice """
+    if _base(clause) != "hmmer/returned-is-input" or not _is_hmmer(case):
+        return False
+    out = _observed(case, "out")
+    if not isinstance(out, list) or not O.h_short_first(case["hits"], case["limit"]):
+        return False
+    given = {tuple(h) for h in case["hits"]}
+    return len({tuple(o) for o in out}) < len(out) and all(tuple(o) in given for o in out)
+
+
+def _f11(clause: str, case: Any) -> bool:
+    """ hmmer.remove_overlapping: the results differ only in repeated hits (see C13-F10) and in the
+        order of two equal-start hits of which one is shorter than overlap_limit """
+    if _base(clause) != "hmmer/same-for-every-input-order" or not _is_hmmer(case):
+        return False
+    outs = _observed(case, "outs")
+    if not isinstance(outs, list) or any(not isinstance(o, list) for o in outs):
+        return False
+    if not (O.h_short_first(case["hits"], case["limit"]) or O.h_equal_start_short(case["hits"], case["limit"])):
+        return False
+    canon = {json.dumps(sorted({tuple(h) for h in out})) for out in outs}
+    positions = all([h[1] for h in out] == sorted(h[1] for h in out) for out in outs)
+    return len(canon) == 1 and positions
 
 
 FINDING_CLASSES: dict[str, Callable[[str, Any], bool]] = {
@@ -279,6 +302,7 @@ FINDING_CLASSES: dict[str, Callable[[str, Any], bool]] = {
     "C13-F8": _f8,
     "C13-F9": _f9,
     "C13-F10": _f10,
+    "C13-F11": _f11,
 }
 
 
@@ -702,38 +726,41 @@ def shards(tier: str, seed: int) -> list:
     _hmmer()
     _prediction()
     out: list[dict[str, Any]] = []
+
+    def split(fam: str, cfg: str, sizes: Optional[list[int]], parts: int, perms: str) -> list[dict[str, Any]]:
+        return [{"fam": fam, "cfg": cfg, "sizes": sizes, "chunk": i, "of": parts, "perms": perms} for i in range(parts)]
+
     if tier == "quick":
-        for cfg in ("r0", "r1", "r2"):
-            out += [{"fam": "R", "cfg": cfg, "sizes": [1, 2, 3], "chunk": i, "of": 6, "perms": "all"} for i in range(6)]
-        out += [{"fam": "R", "cfg": "r4", "sizes": [4], "chunk": i, "of": 8, "perms": "some"} for i in range(8)]
-        out += [{"fam": "R", "cfg": "r5", "sizes": [1, 2, 3], "chunk": i, "of": 2, "perms": "all"} for i in range(2)]
-        out += [{"fam": "H", "cfg": "h0", "sizes": [1, 2, 3], "chunk": i, "of": 3, "perms": "all"} for i in range(3)]
-        out += [{"fam": "H", "cfg": cfg, "sizes": [1, 2, 3], "chunk": i, "of": 2, "perms": "all"}
-                for cfg in ("h1", "h2") for i in range(2)]
-        out += [{"fam": "F", "cfg": "f0", "chunk": 0, "of": 1, "perms": "all"},
-                {"fam": "F", "cfg": "f1", "chunk": 0, "of": 2, "perms": "all"},
-                {"fam": "F", "cfg": "f1", "chunk": 1, "of": 2, "perms": "all"},
-                {"fam": "F", "cfg": "f2", "chunk": 0, "of": 1, "perms": "all"},
-                {"fam": "K"}]
-        jobs = [{"fam": "R", "cfg": "r0", "sizes": [1, 2, 3]}, {"fam": "H", "cfg": "h0", "sizes": [1, 2, 3]},
-                {"fam": "F", "cfg": "f1"}]
-        out += [{"fam": "S", "jobs": jobs, "chunk": i, "of": 12, "seeds": list(range(8))} for i in range(12)]
+        # the hash-seed shards first: they wait for eight child interpreters each
+        jobs = [{"fam": "R", "cfg": "q0", "sizes": [1, 2, 3]}, {"fam": "H", "cfg": "h1", "sizes": [1, 2, 3]},
+                {"fam": "F", "cfg": "f1", "sizes": [1, 2, 3]}]
+        out += [{"fam": "S", "jobs": jobs, "chunk": i, "of": 4, "seeds": list(range(8))} for i in range(4)]
+        out += split("R", "q0", [1, 2, 3], 6, "all")
+        out += split("R", "q1", [1, 2, 3], 2, "all") + split("R", "q2", [1, 2, 3], 2, "all")
+        out += split("R", "q3", [1, 2, 3], 2, "all") + split("R", "q4", [4], 3, "some")
+        out += split("R", "q5", [1, 2, 3], 2, "all")
+        out += split("H", "h0", [1, 2, 3], 4, "all") + split("H", "h1", [1, 2, 3], 1, "all")
+        out += split("H", "h2", [1, 2, 3], 1, "all")
+        out += split("F", "f0", None, 1, "all") + split("F", "f1", None, 3, "all") + split("F", "f2", None, 1, "all")
+        out += [{"fam": "K"}]
         return out
     # thorough
-    out += [{"fam": "R", "cfg": "r0", "sizes": [1, 2, 3, 4], "chunk": i, "of": 24, "perms": "all"} for i in range(24)]
-    for cfg in ("r1", "r2"):
-        out += [{"fam": "R", "cfg": cfg, "sizes": [1, 2, 3, 4], "chunk": i, "of": 12, "perms": "some"} for i in range(12)]
-    out += [{"fam": "R", "cfg": "r5", "sizes": [1, 2, 3, 4], "chunk": i, "of": 4, "perms": "all"} for i in range(4)]
-    for cfg in ("h0", "h1", "h2"):
-        out += [{"fam": "H", "cfg": cfg, "sizes": [1, 2, 3, 4], "chunk": i, "of": 6, "perms": "all"} for i in range(6)]
-    out += [{"fam": "F", "cfg": "f0", "sizes": [1, 2, 3, 4], "chunk": i, "of": 2, "perms": "all"} for i in range(2)]
-    out += [{"fam": "F", "cfg": "f1", "sizes": [1, 2, 3, 4, 5], "chunk": i, "of": 4, "perms": "all"} for i in range(4)]
-    out += [{"fam": "F", "cfg": "f2", "sizes": [1, 2, 3, 4], "chunk": 0, "of": 1, "perms": "all"}, {"fam": "K"}]
     jobs = [{"fam": "R", "cfg": "r0", "sizes": [1, 2, 3]}, {"fam": "R", "cfg": "r2", "sizes": [1, 2, 3]},
-            {"fam": "H", "cfg": "h0", "sizes": [1, 2, 3]}, {"fam": "H", "cfg": "h1", "sizes": [1, 2, 3]},
+            {"fam": "H", "cfg": "h3", "sizes": [1, 2, 3]}, {"fam": "H", "cfg": "h4", "sizes": [1, 2, 3]},
             {"fam": "F", "cfg": "f0"}, {"fam": "F", "cfg": "f1"}]
     out += [{"fam": "S", "jobs": jobs, "chunk": i, "of": 16, "seeds": list(range(16))} for i in range(16)]
-    out += [{"fam": "X", "count": 60000} for _ in range(16)]
+    out += split("R", "r0s", [4], 24, "all") + split("R", "r1s", [4], 10, "some") + split("R", "r2s", [4], 10, "some")
+    for cfg in ("r0", "r1", "r2"):
+        out += split("R", cfg, [1, 2, 3], 6, "all")
+    out += split("R", "r5", [1, 2, 3, 4], 12, "some")
+    for cfg in ("q1", "q2", "q3", "q5"):
+        out += split("R", cfg, [1, 2, 3, 4], 2, "all")
+    for cfg in ("h3", "h4"):
+        out += split("H", cfg, [1, 2, 3], 4, "all") + split("H", cfg, [4], 12, "some")
+    out += split("H", "h2", [1, 2, 3, 4], 2, "all")
+    out += split("F", "f0", [1, 2, 3, 4], 4, "all") + split("F", "f1", [1, 2, 3, 4, 5], 8, "all")
+    out += split("F", "f2", [1, 2, 3, 4], 1, "all") + [{"fam": "K"}]
+    out += [{"fam": "X", "count": 40000} for _ in range(16)]
     return out
 
 
